@@ -19,7 +19,7 @@ ACK_MS = _ack_ms()
 
 def gen_schedule(r, nsteps, weights=None, kinds="GPZDWZGBEF", max_live=3, allow_close=True, allow_reset=False):
     """abstract schedule: list of (event, arg)"""
-    w = dict(start=4, ack=4, rsp=3, rsp2=0.5, tick=3, cancel=1, badack=1, close=0.25, lost=0.15, reset=0.0, connect=0.0)
+    w = dict(start=4, ack=4, rsp=3, rsp2=0.5, tick=3, cancel=1, badack=1, close=0.25, lost=0.15, reset=0.0, connect=0.0, ind=0.6)
     if weights:
         w.update(weights)
     if "connect" not in (weights or {}):
@@ -138,6 +138,15 @@ def run_schedule(r, sched, drain=True, max_live=3):
                 tr.tokens.append("A:%d" % k)
                 w.rx(streams.ack(k))
                 record("ack" if k == cur else "badack", m)
+            elif ev == "ind":
+                # an unsolicited indication of any kind (nobody listens): acknowledged, and nothing else happens - for the
+                # model a response for a command nobody waits for
+                b = hostworld.indication_bytes(r, int(x * 4))
+                if b is None:
+                    continue
+                tr.tokens.append("R:999")
+                w.rx(b)
+                record("ind", m)
             elif ev == "rsp":
                 if not tr.reqs:
                     continue
@@ -326,6 +335,29 @@ def monitor_c11(ctx, tr):
                     ctx.counterexample("returned-before-sent", dict(inp, step=s), "last fragment written first", e,
                                        "a request returned a response before its last fragment was sent")
                     return
+
+
+def monitor_c08(ctx, tr):
+    """packet sequence numbers seen from the API down: every data frame written carries the current number - 0 on a fresh
+    connection, advanced (0 -> 1 -> 2 -> 3 -> 1 ...) by a matching acknowledgement and by nothing else (not by a response, an
+    indication of any kind, a timer, a cancellation), back to 0 when the port is closed / opened again"""
+    inp = dict(events=tr.tokens)
+    expect = 0
+    by_step = {}
+    for (step, rid, k, raw) in tr.writes:
+        by_step.setdefault(step, []).append((rid, k, (raw[5] >> 2) & 3))
+    for s, lab in enumerate(tr.labels):
+        kind = lab.split(":")[0]
+        # writes of this step happen after the event's own effect on the number
+        if kind == "ack":
+            expect = expect % 3 + 1
+        elif kind in ("close", "connect"):
+            expect = 0
+        for (rid, k, seq) in by_step.get(s, []):
+            if seq != expect:
+                ctx.counterexample("seq-stamp-through-api", dict(inp, step=s, event=lab), expect, seq,
+                                   "a data frame is stamped with a packet sequence number that is not the current one")
+                return
 
 
 def monitor_c13(ctx, tr):
